@@ -747,6 +747,9 @@ type refWF struct {
 	handles  map[string]*refWFNode
 	order    []string // node keys in the order of their first declaration (End() included)
 	branches []refWFBranch
+	// late: a branch or a node was declared after a successful Compile. Like an input or a static value
+	// declared then (which are refused when Compile replays them), it must be reported by every later Compile.
+	late string
 }
 
 func (r *refWF) declared(key string) {
@@ -787,6 +790,9 @@ func (r *refWF) predict(op Op) (bool, string) {
 			r.declared(op.Key)
 			h = &refWFNode{key: op.Key, fields: map[string]bool{}}
 			r.handles[op.Key] = h
+			if r.g.compiled && r.late == "" {
+				r.late = "Add-Node"
+			}
 		}
 		h.inputs = append(h.inputs, op.In...)
 		if op.SV != "" {
@@ -798,6 +804,12 @@ func (r *refWF) predict(op Op) (bool, string) {
 		}
 		return true, ""
 	case "WB":
+		if r.g.compiled {
+			if r.late == "" {
+				r.late = "AddBranch"
+			}
+			return true, ""
+		}
 		r.branches = append(r.branches, refWFBranch{from: op.From, ends: append([]string(nil), op.Ends...), cond: condType(op.Cond)})
 		return true, ""
 	case "K":
@@ -813,6 +825,9 @@ func (r *refWF) predict(op Op) (bool, string) {
 		}
 		if r.g.buildErr {
 			return false, "sticky"
+		}
+		if r.late != "" {
+			return false, "compiled/late-" + r.late
 		}
 		// a declared branch is handed to the graph once
 		for _, b := range r.branches {
